@@ -189,6 +189,9 @@ pub fn cmd_hir(args: &[String]) {
         specs.push((shard * 100000 + i, gen_spec(&mut rng, &prof)));
     }
     for (id, spec) in &specs {
+        if crate::util::skip_case(*id) {
+            continue;
+        }
         writeln!(cases, "{} {}", id, spec_sexp(spec)).unwrap();
         let ob = observe(spec);
         writeln!(imp, "{} U {}", id, ob.u).unwrap();
